@@ -43,6 +43,16 @@ def gkeys(g):
 
 
 def run(case):
+    try:
+        return _run(case)
+    except iso.IsoBudget:
+        # the independent isomorphism search ran out of its node budget on a later comparison: inconclusive, never a violation
+        out = Out()
+        out.cls("oracle-budget")
+        return out
+
+
+def _run(case):
     out = Out()
     j1, j2 = case["g1"], case["g2"]
     k1, k2 = keys(j1), keys(j2)
